@@ -664,6 +664,33 @@ def k12(rep):
     rep.floor("reporting loops in the form checker", n, 8)
 
 
+def k13(rep):
+    """Source lines are kept as C strings.  The reader must not store a NUL byte taken from the file: everything after it on the
+    line (or, at the start of a line, everything after it in the file) would be accepted unseen, without a diagnostic."""
+    f = common.extract("include.c", trees=["inclGetLine"])
+    fn = f.func("inclGetLine")
+    reads = [x for x in walk(fn["body"]) if x["k"] == "BinaryOperator" and x["op"] == "=" and
+             any(c.get("callee") in ("osGetc", "getc", "fgetc") for c in calls(x["c"][1]))]
+    if len(reads) != 1 or (strip(reads[0]["c"][0]) or {}).get("k") != "DeclRefExpr":
+        raise AnalysisBroken("inclGetLine: the byte read (`c = osGetc(file)`) was not recognised")
+    var = strip(reads[0]["c"][0])["n"]
+    stores = [c for c in calls(fn["body"], "bufAdd1") if (strip(c["c"][2]) or {}).get("n") == var]
+    if not stores:
+        raise AnalysisBroken("inclGetLine: the byte is not stored with bufAdd1")
+    tests = [x for x in walk(fn["body"]) if x["k"] == "IfStmt" and x["l"] <= stores[0]["l"] and
+             any(y["k"] == "BinaryOperator" and y["op"] in ("==", "!=") and (strip(y["c"][0]) or {}).get("n") == var and
+                 const_value(y["c"][1]) == 0 or y["k"] == "UnaryOperator" and y.get("op") == "!" and (strip(y["c"][0]) or {}).get("n") == var
+                 for y in walk(x["c"][0]))]
+    where = "include.c:%d (inclGetLine)" % stores[0]["l"]
+    if tests:
+        rep.ok("K13", "source-line:nul-not-stored")
+    else:
+        rep.violation("K13", "source-line:nul-not-stored", where,
+                      "the byte read from the source file is stored in the line's C string without a test for NUL: text after a NUL "
+                      "byte is dropped silently, and a line starting with NUL ends the scan, so garbage after it is accepted with "
+                      "exit status 0 and no diagnostic")
+
+
 K6_UNITS = ["include.c", "scan.c", "token.c", "syscmd.c", "linear.c", "parseby.c", "abnorm.c", "macex.c", "abcheck.c"]
 
 
@@ -829,6 +856,7 @@ def run(tier, only=None):
     k9(rep)
     k10(rep)
     k12(rep)
+    k13(rep)
     from . import variadic
     _gen = set(["genc.c", "ccode.c"] + [u for u in common.compiler_units() if u.startswith(("java/", "of_")) or u in ("usedef.c", "flog.c", "dflow.c", "optfoam.c", "inlutil.c", "loops.c")])
     variadic.report(rep, "K11", [u for u in common.compiler_units() if u not in _gen], floor=1700, what="in the front end, FOAM generator and support units")
